@@ -208,6 +208,23 @@ def build_pools(rng):
             if v: p = p + getattr(Period, "from_" + nm)(v)
         pitems.append((c, None, None, p, "sum"))
     G.append(("Period", False, pitems))
+    # the same physical day in calendars that share a display NAME (Hebrew civil/scriptural, the Persian and the Hijri variants): different values
+    try:
+        from pyoda_time import OffsetDate
+        grp = []
+        for ids_ in (("Hebrew Civil", "Hebrew Scriptural"), ("Persian Simple", "Persian Arithmetic", "Persian Algorithmic"), ("Hijri Civil-Base15", "Hijri Civil-Indian", "Hijri Astronomical-Base16")):
+            for dd in (19792, 19793 + rng.randint(0, 300)):
+                for cid_ in ids_:
+                    try:
+                        c_ = gen.cal_by_id(cid_); ld_ = gen.date_of(dd, c_)
+                    except Exception:  # noqa: BLE001
+                        continue
+                    for off_s in (0, 3600):
+                        for via in ("a", "b"):
+                            grp.append(((cid_, dd, off_s), None, None, OffsetDate(ld_, Offset.from_seconds(off_s)), via))
+        G.append(("OffsetDateNamedCalendars", False, grp[:60]))
+    except Exception:  # noqa: BLE001
+        pass
     # ZoneInterval
     zi = []
     for nm in ("A", "B"):
@@ -248,6 +265,7 @@ def build_pools(rng):
 def extract(group, v):
     """Component extractor from public accessors only (the 'documented components')."""
     from vf import gen
+    if group == "OffsetDateNamedCalendars": return (v.calendar.id, gen.day_of(v.date), v.offset.seconds)
     if group == "FixedZoneNamed": return (v.offset.seconds if hasattr(v, "offset") else v.min_offset.seconds, v.id, v.name)
     if group == "Duration": return v.to_nanoseconds()
     if group == "Instant": return gen.inst_ns(v)
